@@ -1,6 +1,7 @@
 package sauth
 
 import (
+	"encoding/asn1"
 	"fmt"
 	"sort"
 	"strings"
@@ -29,6 +30,13 @@ type Req struct {
 	SigKey   int    // key that signs (Go only)
 	SigData  string // ok | sess | user | svc | algo | key | flip   (Go only)
 	SigNoUP  bool   // SK signatures: user-presence flag clear   (Go only)
+
+	KbdRounds []int    // keyboard-interactive: questions per Challenge call of the callback
+	Follow    []string // packets after this request: i<n> | ib | gt | gm | o
+	GssPay    string   // gssapi-with-mic payload: k | k2 (Go only: krb5 as 2nd OID) | nk | n0 | m
+	GssSteps  []string // scripted AcceptSecContext results: <err><out><cont> bits
+	MicGood   bool     // the MIC packet carries the token the scripted GSSAPIServer accepts (Go only)
+	MicOk     bool     // ORACLE: VerifyMIC succeeds
 
 	KeyParses bool   // ORACLE
 	KeyType   string // ORACLE
@@ -64,7 +72,30 @@ func (r Req) String() string {
 	if r.Vcb != "" {
 		add("vcb", r.Vcb)
 	}
+	if len(r.Follow) > 0 {
+		add("fl", strings.Join(r.Follow, "."))
+	}
 	switch r.Method {
+	case "keyboard-interactive":
+		if len(r.KbdRounds) > 0 {
+			ss := make([]string, len(r.KbdRounds))
+			for i, q := range r.KbdRounds {
+				ss[i] = itoa(q)
+			}
+			add("kr", strings.Join(ss, "."))
+		}
+	case "gssapi-with-mic":
+		gp := r.GssPay
+		if gp == "k2" {
+			gp = "k"
+			add("gp2", "1")
+		}
+		add("gp", gp)
+		if len(r.GssSteps) > 0 {
+			add("gs", strings.Join(r.GssSteps, "."))
+		}
+		add("gmg", b01(r.MicGood))
+		add("gmo", b01(r.MicOk))
 	case "password":
 		add("pws", r.PwShape)
 		add("pw", r.Password)
@@ -132,6 +163,26 @@ func ParseReq(s string) Req {
 			r.SigData = v
 		case "nup":
 			r.SigNoUP = v == "1"
+		case "fl":
+			r.Follow = strings.Split(v, ".")
+		case "kr":
+			for _, q := range strings.Split(v, ".") {
+				var n int
+				fmt.Sscan(q, &n)
+				r.KbdRounds = append(r.KbdRounds, n)
+			}
+		case "gp":
+			if r.GssPay != "k2" {
+				r.GssPay = v
+			}
+		case "gp2":
+			r.GssPay = "k2"
+		case "gs":
+			r.GssSteps = strings.Split(v, ".")
+		case "gmg":
+			r.MicGood = v == "1"
+		case "gmo":
+			r.MicOk = v == "1"
 		case "kp":
 			r.KeyParses = v == "1"
 		case "kt":
@@ -264,13 +315,66 @@ func (r Req) Packet() []byte {
 		}
 	case "keyboard-interactive":
 		p = SStr(SStr(p, ""), "") // language tag, submethods
+	case "gssapi-with-mic":
+		krb, _ := asn1.Marshal(asn1.ObjectIdentifier{1, 2, 840, 113554, 1, 2, 2})
+		oth, _ := asn1.Marshal(asn1.ObjectIdentifier{1, 3, 6, 1, 5, 5, 2})
+		switch r.GssPay {
+		case "k":
+			p = Str(U32(p, 1), krb)
+		case "k2":
+			p = Str(Str(U32(p, 2), oth), krb)
+		case "nk":
+			p = Str(U32(p, 1), oth)
+		case "n0":
+			p = U32(p, 0)
+		default: // malformed: one mechanism announced, the string is cut short
+			p = append(U32(U32(p, 1), 9), krb[:5]...)
+		}
 	}
 	return p
+}
+
+// FollowPacket builds a packet that follows a request: i<n> INFO_RESPONSE with n answers · ib malformed
+// INFO_RESPONSE · gt GSSAPI_TOKEN · gm GSSAPI_MIC · o a message of another type.
+func (r Req) FollowPacket(f string) []byte {
+	switch {
+	case f == "ib":
+		return SStr(U32([]byte{61}, 2), "a")
+	case f == "gt":
+		return Str([]byte{61}, []byte{0xff, 0xff, 0xff, 0xff, 0xff, 0xff, 0xff, 0xff})
+	case f == "gm":
+		if r.MicGood {
+			return SStr([]byte{66}, GoodMIC)
+		}
+		return SStr([]byte{66}, "bad-mic")
+	case f == "o": // a message no part of the auth code expects (SSH_MSG_UNIMPLEMENTED)
+		return U32([]byte{3}, 7)
+	case strings.HasPrefix(f, "i"):
+		var n int
+		fmt.Sscan(f[1:], &n)
+		p := U32([]byte{61}, uint32(n))
+		for i := 0; i < n; i++ {
+			p = SStr(p, "ans")
+		}
+		return p
+	}
+	panic("follow " + f)
+}
+
+// GoodMIC is the MIC token the scripted GSSAPIServer accepts (given the right MIC field).
+const GoodMIC = "good-mic"
+
+// MICField is RFC 4462 §3.5: string session id, byte 50, user, service, "gssapi-with-mic".
+func MICField(session []byte, user, service string) []byte {
+	return SStr(SStr(SStr(append(Str(nil, session), 50), user), service), "gssapi-with-mic")
 }
 
 // FillOracle sets the ORACLE fields: key facts by construction, signature validity by verifying the
 // carried blob with the stdlib over the RFC 4252 §7 data of *this* request and the real session id.
 func (r *Req) FillOracle() {
+	if r.T == "r" && r.Method == "gssapi-with-mic" {
+		r.MicOk = r.MicGood // by construction of the scripted GSSAPIServer (it also checks the MIC field)
+	}
 	if r.T != "r" || r.Method != "publickey" {
 		return
 	}
